@@ -29,12 +29,17 @@ PROBES = {
 }
 
 
-def run_probe(prop, v, scratch, seed):
-    fn = v.get("function", "")
+def find_probe(fn):
     test = None
     for k, t in PROBES.items():
-        if fn.endswith(k) or k.endswith(fn):
+        if fn and (fn.endswith(k) or k.endswith(fn)):
             test = t
+    return test
+
+
+def run_probe(prop, v, scratch, seed):
+    fn = v.get("function", "")
+    test = find_probe(fn)
     info = dict(function=fn, probe=test, found=False, output="")
     if not test:
         info["output"] = "no probe registered for this function"
